@@ -51,19 +51,25 @@ Definition lookup (l : list (bytes * list N)) (n : bytes) : list N :=
 Definition has_name (l : list (bytes * list N)) (n : bytes) : bool :=
   existsb (fun p => beqb (fst p) n) l.
 
+(* replace the listener list of an existing name *)
+Definition setl (l : list (bytes * list N)) (n : bytes) (v : list N) : list (bytes * list N) :=
+  map (fun p => if beqb (fst p) n then (fst p, v) else p) l.
+
 Definition a_add (s : astate) (name : bytes) (lid c : N) : astate * list obs :=
   if has_name (a_listeners s) name
-  then (al s (map (fun p => if beqb (fst p) name then (fst p, snd p ++ [lid]) else p) (a_listeners s)), [])
+  then (al s (setl (a_listeners s) name (lookup (a_listeners s) name ++ [lid])), [])
   else let l := a_listeners s ++ [(name, [lid])] in a_submit_leaf (al s l) (setev c l).
+
+Fixpoint rm1 (lid : N) (l : list N) : list N :=
+  match l with [] => [] | y :: l' => if lid =? y then l' else y :: rm1 lid l' end.
 
 Definition a_rem (s : astate) (name : bytes) (lid c : N) : astate * list obs :=
   let cur := lookup (a_listeners s) name in
   if negb (existsb (N.eqb lid) cur) then (s, [])      (* not registered: nothing happens *)
   else
-    let cur' := (fix rm (l : list N) := match l with [] => [] | y :: l' => if lid =? y then l' else y :: rm l' end) cur in
-    match cur' with
+    match rm1 lid cur with
     | [] => let l := filter (fun p => negb (beqb (fst p) name)) (a_listeners s) in a_submit_leaf (al s l) (setev c l)
-    | _ => (al s (map (fun p => if beqb (fst p) name then (fst p, cur') else p) (a_listeners s)), [])
+    | cur' => (al s (setl (a_listeners s) name cur'), [])
     end.
 
 Definition a_sop (s : astate) (o : sop) : astate * list obs :=
